@@ -976,3 +976,49 @@ def cp_value(fn, env, o):
         else:
             return None
     return v
+
+
+def affine_multi(fn, o, depth=0):
+    """an operand as an integer-linear form over opaque leaves: {leaf: coefficient, 1: constant}; leaves are ('local', l)
+    for parameters, call results, multi-definition locals and projections; None if a non-linear operation is met"""
+    if depth > 30:
+        return None
+    c = op_int(o)
+    if c is not None:
+        return {1: c}
+    p = op_place(o)
+    if p is None:
+        return None
+    l, proj = p
+    if proj and not (len(proj) == 1 and isinstance(proj[0], list) and proj[0][0] == "." and proj[0][1] == 0 and fn.locals[l]["ty"].startswith("(")):
+        return {("place", l, json_dumps(proj)): 1}
+    d = fn.single_def(l)
+    if d is None or d[0] == "call":
+        return {("local", l): 1}
+    rv = d[3]["rv"]
+    k = rv["k"]
+    if k == "use" or (k == "cast" and rv.get("ck") == "IntToInt"):
+        return affine_multi(fn, rv["op"], depth + 1)
+    if k == "binop":
+        op = rv["op"].replace("WithOverflow", "").replace("Unchecked", "")
+        x = affine_multi(fn, rv["a"], depth + 1)
+        y = affine_multi(fn, rv["b"], depth + 1)
+        if x is None or y is None:
+            return None
+        if op in ("Add", "Sub"):
+            sg = 1 if op == "Add" else -1
+            out = dict(x)
+            for kk, v in y.items():
+                out[kk] = out.get(kk, 0) + sg * v
+            return {kk: v for kk, v in out.items() if v != 0 or kk == 1}
+        if op == "Mul":
+            for a_, b_ in ((x, y), (y, x)):
+                if set(a_) <= {1}:
+                    return {kk: v * a_.get(1, 0) for kk, v in b_.items()}
+        return None
+    return {("local", l): 1}
+
+
+def json_dumps(x):
+    import json as _j
+    return _j.dumps(x)
